@@ -96,7 +96,11 @@ class DictDecoder:
         if not data:
             raise ParserError("Document is empty, can not detect type")
 
-        keys = data[0].keys() if isinstance(data, list) else data.keys()
+        sample = data[0] if isinstance(data, list) else data
+        if not isinstance(sample, dict):
+            raise ParserError("Document is not an object, can not detect type")
+
+        keys = sample.keys()
         clazz: type[T] | None = self.context.find_type_by_fields(set(keys))
 
         if clazz:
@@ -114,6 +118,11 @@ class DictDecoder:
         Returns:
             An instance of the class type representing the parsed content.
         """
+        if not isinstance(data, dict):
+            raise ParserError(
+                f"Failed to bind `{type(data).__name__}` value to {clazz.__qualname__}"
+            )
+
         if set(data.keys()) == self.context.class_type.derived_keys:
             return self.bind_derived_dataclass(data, clazz)
 
@@ -165,6 +174,11 @@ class DictDecoder:
         params = data["value"]
 
         generic = self.context.class_type.derived_element
+
+        if not isinstance(params, dict):
+            raise ParserError(
+                f"Failed to bind `{type(params).__name__}` value to a derived model"
+            )
 
         if clazz is generic:
             real_clazz: type[T] | None = None
@@ -241,6 +255,12 @@ class DictDecoder:
         """
         # xs:anyAttributes get it out of the way, it's the mapping exception!
         if var.is_attributes:
+            if not isinstance(value, dict):
+                raise ParserError(
+                    f"Failed to bind '{value}' "
+                    f"to {meta.clazz.__qualname__}.{var.name} field"
+                )
+
             return dict(value)
 
         # Repeating element, recursively bind the values
@@ -328,7 +348,11 @@ class DictDecoder:
             # xs:anyType element, check all meta classes
             return self.bind_best_dataclass(data, meta.element_types)
 
-        assert var.clazz is not None
+        if var.clazz is None:
+            raise ParserError(
+                f"Failed to bind object with properties({list(data.keys())}) "
+                f"to {meta.clazz.__qualname__}.{var.name} field"
+            )
 
         subclasses = set(self.context.get_subclasses(var.clazz))
         if subclasses:
